@@ -3,6 +3,7 @@ package rules
 import (
 	"fmt"
 	"go/types"
+	"sort"
 
 	"golang.org/x/tools/go/ssa"
 
@@ -55,7 +56,14 @@ func RuleAArrival(c *core.Ctx) {
 		return
 	}
 	// 1. the consumer: Builder.Add is called sequentially on the batch
-	for _, fn := range core.WithAnon(fromModel) {
+	var consumers []*ssa.Function
+	for fn := range p.ReachLexical(fromModel) {
+		if core.PkgPathOf(fn) == pkgJournal && fn != addFn {
+			consumers = append(consumers, fn)
+		}
+	}
+	sort.Slice(consumers, func(i, j int) bool { return consumers[i].String() < consumers[j].String() })
+	for _, fn := range consumers {
 		core.EachInstr(fn, func(ins ssa.Instruction) {
 			call, ok := ins.(ssa.CallInstruction)
 			if !ok || call.Common().StaticCallee() != addFn {
